@@ -107,11 +107,11 @@ var units = []unit{
 		},
 		externs: map[string]bool{"net": true, "math.frombits": true, "strconv.Itoa": true}},
 	{out: "SamplerSrc", pkgDir: ".", files: []string{"sampler.go"}, only: []string{"Sample", "inc"},
-		imports: "Base.GoEff Base.GoExt", section: "Variable ans : nat -> oval.",
+		imports: "Base.GoEff Base.GoExt", section: "Variable ans : nat -> oval.\nVariable env_rand_Intn : Z -> Z.",
 		stateStructs: []string{"BasicSampler", "BurstSampler", "LevelSampler"}, clockVars: map[string]bool{"TimestampFunc": true},
 		opaque: map[string][]string{"BurstSampler": {"NextSampler"},
 			"LevelSampler": {"TraceSampler", "DebugSampler", "InfoSampler", "WarnSampler", "ErrorSampler"}},
-		externs: map[string]bool{"atomic": true}},
+		externs: map[string]bool{"atomic": true, "rand.Intn": true}},
 	{out: "GateSrc", pkgDir: ".", files: []string{"log.go", "globals.go"}, only: []string{"should", "GlobalLevel", "samplingDisabled"},
 		imports: "Base.GoEff Base.GoExt", section: "Variable env_gLevel : Z.\nVariable env_disableSampling : Z.\nVariable ans : nat -> oval.",
 		stateStructs: []string{"Logger"}, opaque: map[string][]string{"Logger": {"w", "sampler"}},
@@ -167,6 +167,11 @@ var units = []unit{
 		asserts: map[string]map[string][]string{"TriggerLevelWriter": {"Writer": {"LevelWriter"}}},
 		envVars: map[string]bool{"TriggerLevelWriterBufferReuseLimit": true},
 		externs: map[string]bool{"bytes.IndexByte": true}, mutexBrackets: true},
+	// syncWriter: the mutex bracket is dropped (lockgen's obligation), what remains is the forwarded call
+	{out: "SyncSrc", pkgDir: ".", files: []string{"writer.go"}, only: []string{"Write", "WriteLevel", "Close"}, onlyRecv: []string{"syncWriter"},
+		imports: "Base.GoEff Base.GoExt", section: "Variable ans : nat -> oval.",
+		stateStructs: []string{"syncWriter"}, opaque: map[string][]string{"syncWriter": {"lw"}},
+		asserts: map[string]map[string][]string{"syncWriter": {"lw": {"Closer"}}}, mutexBrackets: true},
 	{out: "LevelSrc", pkgDir: ".", files: []string{"log.go"}, only: []string{"String", "ParseLevel"},
 		imports: "Base.GoEff",
 		section: "Variable env_LevelTraceValue env_LevelDebugValue env_LevelInfoValue env_LevelWarnValue env_LevelErrorValue env_LevelFatalValue env_LevelPanicValue : list N.\nVariable env_LevelFieldMarshalFunc : Z -> list N.",
@@ -3790,6 +3795,11 @@ func (f *fnCtx) extern(fn *types.Func, e *ast.CallExpr) string {
 				}
 			}
 			return "Some (ErrFmt " + bytesLit(constant.StringVal(tv.Value)) + ")"
+		}
+	case "math/rand.Intn":
+		if f.p.u.externs["rand.Intn"] {
+			// the pseudo-random source is the environment: a Section variable answering one call
+			return "env_rand_Intn " + arg(0)
 		}
 	case "strconv.Itoa":
 		if f.p.u.externs["strconv.Itoa"] {
